@@ -47,9 +47,8 @@ def compare(case, impl, model):
         return None                       # non-terminating program: cut by the budgets, not compared
     if impl["log"] != model["log"]:
         a, b = impl["log"], model["log"]
-        if len(a) == len(b):
-            # a framework signal (an application handler registered for InputReadySignal, ...) carries no harness id on the implementation
-            b = [([e[0], e[1], None] + e[3:] if e[0] == "H" and a[k][0] == "H" and a[k][2] is None else e) for k, e in enumerate(b)]
+        # a framework signal (an application handler registered for InputReadySignal, ...) carries no harness id on the implementation
+        b = [([e[0], e[1], None] + e[3:] if e[0] == "H" and k < len(a) and a[k][0] == "H" and a[k][2] is None else e) for k, e in enumerate(b)]
         k = next((i for i in range(min(len(a), len(b))) if a[i] != b[i]), min(len(a), len(b)))
         if k < max(len(a), len(b)):
             return "event #%d: implementation %r / model %r" % (k, a[k] if k < len(a) else None, b[k] if k < len(b) else None)
